@@ -33,7 +33,7 @@ class Pending:
 
 def port(h, clsname, closed=False, pending=0, autoreset=None, extra=None):
     import mido.ports as MP
-    cls = getattr(MP, clsname)
+    cls = getattr(MP, clsname) if isinstance(clsname, str) else clsname
     h.pending = [Pending(i) for i in range(pending)]
     h.lock = Obj(LockModel, {})
     attrs = {'name': 'port', '_lock': h.lock, 'closed': closed, '_messages': collections.deque(h.pending), '_parser': Opaque('parser')}
@@ -104,6 +104,37 @@ def _msg_cls():
     return MS.Message
 
 
+_SEND_OVERRIDING = []
+
+
+def send_overriding_port_class():
+    """a device port in the style of mido's own rtmidi and amidi backends: output is implemented by overriding the public
+    send(), and the inherited _send() stays the do-nothing default.  Whatever the library wants the device to receive
+    (the reset messages of an autoreset port, panic) has to go through send()."""
+    if not _SEND_OVERRIDING:
+        import mido.ports as MP
+
+        class SendOverridingPort(MP.BaseIOPort):
+            def send(self, msg):
+                raise NotImplementedError('device double: replaced by a hook')
+        _SEND_OVERRIDING.append(SendOverridingPort)
+    return _SEND_OVERRIDING[0]
+
+
+def send_overriding_hooks(hooks, fail_at=None):
+    """the double's send() is the device (logged as '_send'); the inherited BaseOutput._send reaches no device at all"""
+    cls = send_overriding_port_class()
+    dev = hooks[raw_function(P + 'BaseOutput._send')]
+
+    def base_send(ip, args, kwargs):
+        ip.ctx.event('base-_send-reaches-no-device', id(args[0]))
+        return None
+    hooks = dict(hooks)
+    hooks[raw_function(P + 'BaseOutput._send')] = base_send
+    hooks[cls.__dict__['send']] = dev
+    return hooks
+
+
 def sleep_model(ip, d):
     ip.ctx.event('sleep', tuple(id(l) for l in ip.ctx.held))
     return None
@@ -144,9 +175,12 @@ class PortClose(Contract):
     key = 'C11.close'
     target = P + 'BasePort.close'
     properties = ('C11', 'C10')
-    configs = tuple({'how': how, 'closed': c, 'autoreset': a, 'fail': f}
+    # dev: how the device double implements output - by overriding _send() (portmidi, pygame, sockets, ...) or by overriding
+    # the public send() (mido's rtmidi and amidi backends)
+    configs = tuple({'how': how, 'closed': c, 'autoreset': a, 'fail': f, 'dev': d}
                     for how in ('close', 'close-twice', 'with', 'del') for c in (False, True)
-                    for a in (None, False, True) for f in (None, 0, 5, 31) if (f is None or a is True))
+                    for a in (None, False, True) for f in (None, 0, 5, 31) if (f is None or a is True)
+                    for d in ('_send', 'send') if (d == '_send' or a is True))
     raises = {}
     symbolic_only = True
 
@@ -154,10 +188,12 @@ class PortClose(Contract):
         return _CLOSE[cfg['how']].get(h)
 
     def hooks(self, cfg):
-        return device_hooks(h_send_fail_at=cfg['fail'])
+        hk = device_hooks(h_send_fail_at=cfg['fail'])
+        return send_overriding_hooks(hk) if cfg['dev'] == 'send' else hk
 
     def inputs(self, h, cfg):
-        return [port(h, 'BaseIOPort', closed=cfg['closed'], autoreset=cfg['autoreset'])], {}
+        cls = send_overriding_port_class() if cfg['dev'] == 'send' else 'BaseIOPort'
+        return [port(h, cls, closed=cfg['closed'], autoreset=cfg['autoreset'])], {}
 
     def ensures(self, h, cfg, a, r):
         closes = log_of(h, '_close')
